@@ -631,6 +631,16 @@ impl<'a> Interp<'a> {
                     self.c.verif_raw_gate(sel, wires, pi);
                 }
             }
+            "set_witness_opt" => {
+                // adversarial override keyed by the SPECIFICATION's layout: when the
+                // implementation's layout has drifted the index may not exist; the
+                // override is then skipped (the scenario's expectation is phrased so
+                // that a skipped override cannot raise an alarm)
+                let v = fe(op, "v")?;
+                if let Some(i) = op.get("w").and_then(|w| w.as_u64()) {
+                    self.c.verif_set_witness(i as usize, v);
+                }
+            }
             "pad" => {
                 let to = usz(op, "to")?;
                 if self.c.constraints() > to {
